@@ -2,12 +2,13 @@ from ..fam import tree
 
 
 def cases(tier):
-    return tree.cases(tier, 'func')
+    from ..fam import strf
+    return tree.cases(tier, 'func') + strf.cases(tier, 'C01')
 
 
 def meta(tier):
     i = tree.info(tier)
     return {'level': 'model_checking', 'bounds': i['bounds'], 'stubs': i['stubs'], 'assumptions': [i['prestate'], 'malloc does not fail here (C15 covers failure)', 'zero-length values are outside the claim'],
-            'outside': ['trees larger than the bound', 'keys longer than 2 bytes, values longer than 3', 'putstrf formatting', 'zero-length values'],
+            'outside': ['trees larger than the bound', 'keys longer than 2 bytes, values longer than 3', 'putstrf: only the buffer management around vsnprintf with the format "%s" (strf queries); formatting itself is outside', 'zero-length values'],
             'explanation': 'Inductive step on the real qtreetbl.c: for every valid LLRB (shape, colouring) up to the node bound (driver-enumerated, proof by cases) one put/remove/get/min/max/size/clear with symbolic key (every present key and every gap), '
                            'symbolic values and key second bytes; post-state compared with an ideal sorted map through an independent in-order walker, for the default byte-wise comparator, a user comparator and a reversed user comparator, binary and string key APIs.'}
